@@ -1,6 +1,8 @@
 """C13  Burg models are stable, nested and minimise forward+backward error."""
 import numpy as np
 
+import single
+
 import proto
 from common import gen_data, rel
 
@@ -168,7 +170,10 @@ def _mk(nrng, N, cplx, kind, exact):
     return np.asarray(x, dtype=complex if cplx else float)
 
 
+KINDS["single"] = single.kind("C13")
+
 def gen(rng, nrng, tier):
+    yield from single.gen("C13", nrng, tier)
     for N in ((256, 300) if tier == "quick" else (256, 257, 300, 513, 1000)):   # long records
         for cplx in (False, True):
             x = _mk(nrng, N, cplx, "tone", False)
